@@ -495,8 +495,11 @@ def main(argv=None):
             samples.append({'theorem': m.group(2), 'statement': ' '.join(m.group(3).split())[:700]})
             if len(samples) >= 6:
                 break
+    def _clip(x, n=3000):
+        t = json.dumps(x, default=str)
+        return x if len(t) <= n else (t[:n] + ' ... [%d characters clipped]' % (len(t) - n))
     for c, r in list(zip(cases, results))[:3]:
-        samples.append({'case': c, 'impl_result': r})
+        samples.append({'case': _clip(c), 'impl_result': _clip(r)})
     trusted = ['Coq 8.16.1 kernel (coqc); vm_compute for Examples and for evaluating the model in the correspondence check; no native_compute']
     trusted += ['Print Assumptions: ' + a for a in sorted(set(A['assumptions']))] or []
     trusted += getattr(plugin, 'TRUSTED', [])
